@@ -25,7 +25,11 @@ LEAN_PROOFS = ['Proofs.C04', 'Proofs.C04.SpecKat', 'Proofs.C04_Fips202', 'Proofs
 GEN_ITEMS = ['KeccakG']
 RULE = ('op lines = (op, width b, rate r, bit-order mode, message, bit length L, output length d); rates incl. r<8 and r not a '
         'multiple of 8, L over {0,1,r-2,r-1,r,r+1,2r-2,2r-1,2r,2r+1,..} x L mod 8, d over {1,r,r+1,3r}; distinct lines; '
-        'per-call rate lines (r=<rc>, setrate=<r1>, module-level objects): rc equal/smaller/larger than the object rate, odd, <8, 0, >=b, >1536, L on the block boundaries of both rates; non-trivial = the implementation returned a value')
+        'per-call rate lines (r=<rc>, setrate=<r1>, module-level objects): rc equal/smaller/larger than the object rate, odd, <8, 0, >=b, >1536, L on the block boundaries of both rates; '
+        '`keccak.seq <cfg> | duplex … | call … | hash …` lines: ONE object (every SHA3(n), SHAKE-style Keccak objects with duplexing=True, plain Keccak objects of every width in both bit orders, the module-level '
+        'objects) runs one or several duplex() calls (valid, refused, every kind of outlen) before and between one-shot calls; every one-shot call is compared with the reference sponge / hashlib of its own '
+        'arguments in the bit order the object was configured with (ragged L, SHA-3 and SHAKE suffixes), every duplex() with the reference duplex threaded through the line; '
+        'non-trivial = the implementation returned a value')
 TRUSTED = ['Spec/Fips202.lean is a faithful transcription of the printed FIPS 202 (bit strings, the state array of bits A[x,y,z], Algorithms 1-11, '
            'sections 5.2 and 6, h2b/b2h; written to be compared with the standard line by line). The lane-level Spec/Keccak.lean the C04 theorems '
            'are stated against is NO LONGER trusted for SHA-3/SHAKE/the sponge/the permutations: Proofs.C04_Fips202 proves it equal to the '
@@ -38,7 +42,8 @@ TRUSTED = ['Spec/Fips202.lean is a faithful transcription of the printed FIPS 20
            'CPython int/bytes/BytesIO semantics are modelled (Model.Py), validated by this stream']
 ASSUMPTIONS = ['python -O (asserts stripped) is out of scope', 'rate 0 makes Keccak.duplex/iterblocks loop forever in Python: outside the domain 0 < r',
                'a per-call rate 0 never returns (iterblocks yields empty blocks for ever): reported as HANG by a yield counter put on that one '
-               'object, outside the domain; the persistence of `duplexing` after duplex() and longer call histories belong to C10']
+               'object, outside the domain; histories that mix duplex() with one-shot calls on one object are checked here (keccak.seq); '
+               'arbitrary histories over the whole operation alphabet (setrate, …) belong to C10']
 LINE_TIMEOUT = 120
 
 WIDTHS = (25, 50, 100, 200, 400, 800, 1600)
@@ -103,8 +108,42 @@ def run_impl(line):
             for st in steps_of(a[3:]):
                 out.append(guarded(lambda: hx(k.duplex(unhx(st[0]), unoi(st[1]), unoi(st[2])))))
             return ';'.join(out)
+        if op == 'keccak.seq': return run_seq(K, S, steps_of(a))
         raise RuntimeError('unknown op ' + op)
     return guarded(go)
+
+
+def run_seq(K, S, parts):
+    """keccak.seq <cfg> | step | …  — ONE object of the library through a history of duplex() and one-shot calls"""
+    cfg, steps = parts[0], parts[1:]
+    saved = None
+    if cfg[0] == 'keccak':
+        k = K.Keccak(b=int(cfg[1]), r=int(cfg[2]), len=int(cfg[4]))
+        if cfg[3] == 'L': k.duplexing = True
+    elif cfg[0] == 'sha3':
+        k = S.SHA3(int(cfg[1]))
+    elif cfg[0] == 'single':
+        k = getattr(K, 'keccak_' + cfg[1])            # the shared module-level object itself
+        saved = dict(vars(k))
+        k.duplexing = (cfg[2] == 'L')
+    else: raise RuntimeError('bad keccak.seq configuration %r' % cfg)
+    out = []
+    try:
+        for st in steps:
+            if st[0] == 'duplex':
+                out.append(guarded(lambda: hx(k.duplex(unhx(st[1]), unoi(st[2]), unoi(st[3])))))
+            elif st[0] == 'call':
+                sr, rc = opts_of(st[3:])
+                kw = {} if rc is None else {'r': rc}
+                out.append(guarded(lambda: hx(K.Keccak.__call__(k, unhx(st[1]), bitlen=unoi(st[2]), **kw))))
+            elif st[0] == 'hash':
+                out.append(guarded(lambda: hx(k(unhx(st[1]))) if cfg[0] == 'sha3' else
+                                   hx(k(unhx(st[1]) + b'\x02', bitlen=8 * len(unhx(st[1])) + 2))))
+            else: raise RuntimeError('bad keccak.seq step %r' % st)
+    finally:
+        if saved is not None:                         # later lines of this worker see the object as the module built it
+            vars(k).clear(); vars(k).update(saved)
+    return ';'.join(out)
 
 
 class _Hang(Exception): pass
@@ -317,6 +356,7 @@ def check_impl(line, res):
         h = bytearray(hashlib.new('shake_%d' % n, M).digest((d + 7) // 8))
         if d % 8: h[-1] &= (1 << (d % 8)) - 1
         return None if out == bytes(h) else bad('differs from hashlib')
+    if op == 'keccak.seq': return check_seq(bad, steps_of(a), res)
     if op == 'keccak.duplex':
         b, r = int(a[0]), int(a[1])
         if not in_domain(b, r): return None
@@ -339,6 +379,66 @@ def check_impl(line, res):
             exp = (S & ((1 << ol) - 1)).to_bytes((ol + 7) // 8, 'little')
             if unhx(o) != exp: return bad('differs from the reference duplex')
         return None
+    return None
+
+
+def check_seq(bad, parts, res):
+    """ONE object, a history: every one-shot call must return the reference sponge (hashlib for a SHA3 object / a SHA-3 or
+    SHAKE suffix) of ITS OWN arguments in the bit order the object was configured with, whatever duplex() calls came
+    before; the duplex() calls return the reference duplex outputs of the duplex steps of the line, whatever one-shot
+    calls came in between"""
+    cfg, steps = parts[0], parts[1:]
+    if cfg[0] == 'keccak': b, r, mode, d = int(cfg[1]), int(cfg[2]), cfg[3], int(cfg[4])
+    else:
+        n = int(cfg[1])
+        if n not in SHA3_RATE: return None if res == 'ERR' else bad('there is no such object')
+        b, r, mode, d = 1600, 1600 - 2 * n, ('L' if cfg[0] == 'sha3' else cfg[2]), n
+    if not in_domain(b, r) or d < 1: return None
+    outs = res.split(';')
+    if len(outs) != len(steps): return bad('%d results for %d steps' % (len(outs), len(steps)))
+    w = b // 25
+    S = 0                                     # the reference duplex state; None: no longer followed (an output longer than the rate was asked)
+    seen = []
+    for i, (st, o) in enumerate(zip(steps, outs)):
+        hist = 'step #%d (%s) after [%s]' % (i, st[0], ','.join(seen))
+        seen.append(st[0])
+        if st[0] == 'duplex':
+            M, L, ol = unhx(st[1]), unoi(st[2]), unoi(st[3])
+            if L is None: L = 8 * len(M)
+            if ol is None: ol = r
+            if S is None: continue
+            if ol > r: S = None; continue               # outside the reference duplex's domain: the one-shot calls are still checked
+            if L > 8 * len(M) or L + 2 > r:
+                if o != 'ERR': return bad(hist + ': input longer than r-2 bits (or than the data) must be refused')
+                continue
+            if o == 'ERR': return bad(hist + ': in-domain duplexing call raised')
+            P, _ = ref_padded(ref_bits('L', M, L), L, r)
+            S = ref_f(S ^ P, w)
+            if unhx(o) != (S & ((1 << ol) - 1)).to_bytes((ol + 7) // 8, 'little'): return bad(hist + ': differs from the reference duplex')
+            continue
+        if st[0] == 'hash':
+            M0 = unhx(st[1]); M, L, re = M0 + b'\x02', 8 * len(M0) + 2, r
+            if cfg[0] == 'sha3' and o != hx(hashlib.new('sha3_%d' % d, M0).digest()):
+                return bad(hist + ': SHA3-%d of this message differs from hashlib (got %s)' % (d, o[:33]))
+        else:
+            sr, rc = opts_of(st[3:])
+            M, L = unhx(st[1]), unoi(st[2])
+            re = r if rc is None else rc
+            if not in_domain(b, re): continue
+            if L is None: L = 8 * len(M)
+        if L > 8 * len(M):
+            if o != 'ERR': return bad(hist + ': bit length beyond the data must be refused')
+            continue
+        if o in ('ERR', 'HANG'): return bad(hist + ': in-domain call raised')
+        out = unhx(o)
+        if len(out) != (d + 7) // 8: return bad(hist + ': output has %d bytes for d=%d' % (len(out), d))
+        N = ref_bits(mode, M, L)
+        exp = ref_sponge(b, re, N, L, d)
+        if out != exp:
+            return bad(hist + ': differs from the reference sponge of this call\'s own arguments in the object\'s bit order %s (expected %s)' % (mode, exp.hex()[:32]))
+        if b == 1600:
+            why = hashlib_oracle(re, M, N, L, d, out)
+            if why: return bad(hist + ': ' + why)
     return None
 
 
@@ -527,6 +627,66 @@ def duplex_cases(tier, rng):
         yield 'keccak.duplex %d %d | x01 1 %d | x00 1 None' % (b, r, min(r + 1, b)), 'duplex:outlen>r'
 
 
+def seq_line(cfg, *steps): return 'keccak.seq %s | %s' % (cfg, ' | '.join(steps))
+def dstep(M, L=None, ol=None): return 'duplex %s %s %s' % (hx(M), oi(L), oi(ol))
+def cstep(M, L=None, rc=None): return 'call %s %s' % (hx(M), oi(L)) + ('' if rc is None else ' r=%d' % rc)
+
+def seq_cases(tier, rng):
+    """ONE object: duplex() calls (one, several, refused ones, with every kind of outlen) followed by / interleaved with
+    one-shot calls — SHA3(n) instances, SHAKE-style objects (Keccak + duplexing=True), plain Keccak objects in both bit
+    orders and every width, the module-level objects.  Bit lengths with L mod 8 != 0 (there the two bit orders differ)
+    and the SHA-3 / SHAKE suffixes (hashlib inside check_impl)."""
+    quick = tier == 'quick'
+    def dsteps(r, k):
+        out = []
+        for _ in range(k):
+            L = rng.choice([0, 1, max(r - 2, 0), rng.randrange(0, max(r - 1, 1))])
+            L = min(L, max(r - 2, 0))
+            out.append(dstep(msg_for(rng, L, rng.randrange(2)), L, rng.choice([None, None, 1, min(r, 8), r])))
+        return out
+    # SHA3 instances: one duplex / several / a refused duplex / duplex between two hashes
+    for n, r in SHA3_RATE.items():
+        q = r // 8
+        for nb in ((0, 3, q - 1, q) if quick else (0, 1, 3, q - 2, q - 1, q, q + 1, 2 * q)):
+            M = rbytes(rng, nb)
+            yield seq_line('sha3 %d' % n, dsteps(r, 1)[0], 'hash ' + hx(M)), 'seq:sha3:duplex,hash'
+            yield seq_line('sha3 %d' % n, 'hash ' + hx(M), *dsteps(r, 2), 'hash ' + hx(M), 'hash ' + hx(rbytes(rng, 5))), 'seq:sha3:hash,duplex*,hash'
+        yield seq_line('sha3 %d' % n, dstep(rbytes(rng, q), 8 * q), 'hash ' + hx(rbytes(rng, 9))), 'seq:sha3:refused duplex,hash'
+        yield seq_line('sha3 %d' % n, dstep(b'ab', 17), 'hash x', dstep(rbytes(rng, q - 1), 8 * q - 9), 'hash x61'), 'seq:sha3:refused duplex,hash'
+        yield seq_line('sha3 %d' % n, dstep(b'\x01', 1, 1601), 'hash x', dstep(b'\x01', 1, r + 1), 'hash x61'), 'seq:sha3:duplex outlen>r,hash'
+        M = rbytes(rng, 7)
+        yield seq_line('sha3 %d' % n, *dsteps(r, 3), cstep(M + b'\x02', 58), cstep(M + b'\x0f', 60, 1344), 'hash ' + hx(M)), 'seq:sha3:duplex*,call'
+    # SHAKE-style objects (what SHAKE128/256 build) and the other b=1600 splits in the native order, SHA-3/SHAKE suffixes
+    for r, d in ((1344, 264), (1088, 512), (1344, 3000 if not quick else 1400), (576, 512), (1027, 64)):
+        for nb in (0, r // 8 - 1, r // 8):
+            M = rbytes(rng, nb)
+            yield seq_line('keccak 1600 %d L %d' % (r, d), *dsteps(r, 1 + nb % 2), cstep(M + bytes([0x0f | (rng.getrandbits(4) << 4)]), 8 * nb + 4)), 'seq:shake-style:duplex,call'
+            yield seq_line('keccak 1600 %d L %d' % (r, d), cstep(M + b'\x1f', 8 * nb + 4), *dsteps(r, 2),
+                           cstep(M + b'\x1f', 8 * nb + 4), cstep(M + bytes([0x02 | (rng.getrandbits(6) << 2)]), 8 * nb + 2, rng.choice(list(SHA3_RATE.values())))), 'seq:shake-style:call,duplex*,call'
+    # plain Keccak objects, both bit orders, every width; ragged bit lengths
+    cfgs = [(25, 8), (50, 3), (200, 40), (200, 165), (400, 144), (800, 512), (1600, 1088), (1600, 1027)]
+    if not quick: cfgs += [(25, 24), (100, 9), (100, 64), (800, 777), (1600, 8), (1600, 1536), (1600, 576)]
+    for b, r in cfgs:
+        for mode in 'NL':
+            for k in range(3 if quick else 10):
+                d = rng.choice([1, 8, r, r + 1, 2 * r + 3])
+                L1 = rng.choice([1, 3, 7, 9, r - 1, r + 5, 2 * r + 1]); L2 = rng.randrange(0, 3 * r + 9)
+                M1, M2 = msg_for(rng, L1, 1), msg_for(rng, L2, rng.randrange(2))
+                cfg = 'keccak %d %d %s %d' % (b, r, mode, d)
+                if k % 3 == 0: yield seq_line(cfg, *dsteps(r, 1), cstep(M1, L1)), 'seq:b%d:%s:duplex,call' % (b, mode)
+                elif k % 3 == 1: yield seq_line(cfg, cstep(M1, L1), *dsteps(r, 1 + k % 2), cstep(M1, L1), cstep(M2, L2), *dsteps(r, 1), cstep(M2, L2)), 'seq:b%d:%s:interleaved' % (b, mode)
+                else:
+                    rc = rng.choice([1, 7, max(r // 2, 1), min(r + 8, b - 1, 1536)])
+                    yield seq_line(cfg, *dsteps(r, 2), cstep(M1, L1, rc), dstep(msg_for(rng, r), r - 1), cstep(M2, L2), cstep(M1, 8 * len(M1) + 1)), 'seq:b%d:%s:duplex,refused duplex,call r=' % (b, mode)
+    # the module-level objects: a duplex() on the shared object, then calls in both orders
+    for n, r in SHA3_RATE.items():
+        for mode in 'NL':
+            M = rbytes(rng, rng.randrange(0, 40))
+            yield seq_line('single %d %s' % (n, mode), *dsteps(r, 1 + n % 2), cstep(M + bytes([0x02 | (rng.getrandbits(6) << 2)]), 8 * len(M) + 2), cstep(M + b'\xff', 8 * len(M) + 3)), 'seq:single:%s' % mode
+    yield seq_line('sha3 128', dstep(b'', 0), 'hash x'), 'malformed'
+    yield seq_line('keccak 1600 1600 N 8', dstep(b'', 0), cstep(b'', 0)), 'malformed'
+
+
 def rate_line(b, r0, mode, M, L, d, sr=None, rc=None):
     return sponge_line(b, r0, mode, M, L, d) + ('' if sr is None else ' setrate=%d' % sr) + ('' if rc is None else ' r=%d' % rc)
 
@@ -651,6 +811,12 @@ def cases(tier, rng):
                 yield rate_line(b, r, mode, msg_for(rng, L2, 1), L2, rng.choice([1, rc, rc + 1, 2 * rc + 3]), rc=rc), 'search'
                 yield rate_line(b, r, mode, msg_for(rng, L2, 1), L2, rng.choice([1, rc, rc + 1, 2 * rc + 3]), sr=rc), 'search'
                 if b == 1600: yield single_line(rng.choice(list(SHA3_RATE)), mode, msg_for(rng, L2, 1), L2, rc), 'search'
+            if r >= 3:
+                hist = [dstep(msg_for(rng, Ld), Ld, rng.choice([None, 1, r])) for Ld in [rng.randrange(0, r - 1) for _ in range(rng.randrange(1, 4))]]
+                d_ = rng.choice([1, r, r + 1, 2 * r + 3])
+                yield seq_line('keccak %d %d %s %d' % (b, r, mode, d_), *hist, cstep(M, L)), 'search'
+                n_ = rng.choice(list(SHA3_RATE)); Ld = rng.randrange(0, 500)
+                yield seq_line('sha3 %d' % n_, dstep(msg_for(rng, Ld), Ld), 'hash ' + hx(rbytes(rng, rng.randrange(0, 300)))), 'search'
             w = b // 25
             yield 'keccak.f %d %s' % (w, state_tok(rng, w, 'rand')), 'search'
             yield 'keccak.round %d %d %s' % (w, rng.randrange(24), state_tok(rng, w, 'rand')), 'search'
@@ -666,11 +832,21 @@ def cases(tier, rng):
     yield from duplex_cases(tier, rng)
     yield from rate_cases(tier, rng)
     yield from sponge_cases(tier, rng)
+    yield from seq_cases(tier, rng)
     yield from fips202_cases(tier, rng)          # last: the earlier streams keep their lines for a given seed
 
 
 def shrink(line):
     t = line.split()
+    if t[0] == 'keccak.seq':
+        parts = steps_of(t[1:])
+        cfg, steps = parts[0], parts[1:]
+        for i in range(len(steps) - 1):                 # fewer steps, the last one kept
+            if len(steps) > 2: yield seq_line(' '.join(cfg), *[' '.join(x) for j, x in enumerate(steps) if j != i])
+        for i, st in enumerate(steps):                  # an empty duplex input
+            if st[0] == 'duplex' and st[1:] != ['x', '0', 'None']:
+                yield seq_line(' '.join(cfg), *[' '.join(x if j != i else ['duplex', 'x', '0', 'None']) for j, x in enumerate(steps)])
+        return
     if t[0] in ('sha3', 'shake'):
         tok = t[2]
         if len(tok) > 3:
